@@ -555,3 +555,108 @@ func runRedisCmd(ctx *Ctx) {
 		runRedisCmdCase(ctx, progs, 60, sched)
 	}
 }
+
+// ---------------------------------------------------------------------------------------------
+// Component "redisttl" (C02, Go-side monitors only): a PutMany whose batch contains an expiring record, with a
+// single-key writer of ANOTHER client landing after the k-th Redis command of the batch (every k).  Whatever
+// order the two take effect in, a record's value/version and its TTL belong to the SAME write: a record that
+// shows the other client's Put (written without expiry) must have no TTL on the server, one that shows the
+// batch's write must have one.
+func init() { components["redisttl"] = runRedisTTL }
+
+type ttlHook struct {
+	after int
+	seen  int
+	fire  func()
+	done  bool
+}
+
+func (h *ttlHook) BeforeProcess(ctx context.Context, cmd goredis.Cmder) (context.Context, error) {
+	return ctx, nil
+}
+func (h *ttlHook) AfterProcess(ctx context.Context, cmd goredis.Cmder) error {
+	h.tick()
+	return nil
+}
+func (h *ttlHook) BeforeProcessPipeline(ctx context.Context, cmds []goredis.Cmder) (context.Context, error) {
+	return ctx, nil
+}
+func (h *ttlHook) AfterProcessPipeline(ctx context.Context, cmds []goredis.Cmder) error {
+	h.tick()
+	return nil
+}
+func (h *ttlHook) tick() {
+	h.seen++
+	if !h.done && h.seen == h.after {
+		h.done = true
+		h.fire()
+	}
+}
+
+func runRedisTTL(ctx *Ctx) {
+	bg := context.Background()
+	for _, other := range []string{"put", "delete-create", "cas"} {
+		for after := 1; after <= 4; after++ {
+			for _, order := range [][]int{{0, 1}, {1, 0}} {
+				mr, err := miniredis.Run()
+				if err != nil {
+					return
+				}
+				a := kredis.New(&goredis.Options{Addr: mr.Addr()})
+				b := kredis.New(&goredis.Options{Addr: mr.Addr()})
+				ctx.R.Case(other, after, order[0])
+				ctx.R.Nontrivial("a single-key writer lands inside a PutMany batch with an expiring record")
+				first, _ := b.Put(bg, kvs.Record{Key: "k", Value: []byte("old")})
+				var otherVer string
+				h := &ttlHook{after: after}
+				h.fire = func() {
+					switch other {
+					case "put":
+						if r, err := b.Put(bg, kvs.Record{Key: "k", Value: []byte("B")}); err == nil {
+							otherVer = r.Version
+						}
+					case "delete-create":
+						b.Delete(bg, "k")
+						if v, err := b.Create(bg, kvs.Record{Key: "k", Value: []byte("B")}); err == nil {
+							otherVer = v
+						}
+					case "cas":
+						cur, err := b.Get(bg, "k")
+						if err == nil {
+							if r, err := b.CasByVersion(bg, kvs.Record{Key: "k", Value: []byte("B"), Version: cur.Version}); err == nil {
+								otherVer = r.Version
+							}
+						}
+					}
+				}
+				kredis.VerifAddHook(a, h)
+				exp := time.Now().Add(time.Hour)
+				recs := []kvs.Record{{Key: "k", Value: []byte("A"), ExpiresAt: &exp}, {Key: "z", Value: []byte("A")}}
+				batch := []kvs.Record{recs[order[0]], recs[order[1]]}
+				ctx.R.Enter()
+				perr := a.PutMany(bg, batch)
+				ctx.R.Leave()
+				ctx.R.Op(fmt.Sprintf("putmany-vs-%s after=%d", other, after), "ok")
+				if perr == nil {
+					cur, gerr := b.Get(bg, "k")
+					ttl := mr.TTL("/kvs/k")
+					switch {
+					case gerr != nil:
+						ctx.R.Quiet("mon C02-documented-outcome", fmt.Sprintf("after PutMany and a concurrent %s of the same key the record is absent: %v", other, gerr))
+					case otherVer != "" && cur.Version == otherVer:
+						if ttl != 0 || cur.ExpiresAt != nil {
+							ctx.R.Quiet("mon C02-linearizable", fmt.Sprintf("the record shows the other client's %s (version %s, written WITHOUT expiry) but carries a TTL of %v (ExpiresAt %v): the batch's expiry landed on a foreign record — no order of the two writes explains it", other, cur.Version, ttl, cur.ExpiresAt))
+						}
+					case cur.Version != first.Version:
+						if ttl == 0 {
+							ctx.R.Quiet("mon C02-linearizable", fmt.Sprintf("the record shows the batch's write (value %q) but has no TTL although it was written with an expiry", cur.Value))
+						}
+					}
+				}
+				a.(interface{ Close() error }).Close()
+				b.(interface{ Close() error }).Close()
+				mr.Close()
+			}
+		}
+	}
+}
